@@ -3,6 +3,7 @@ import Abyss.Scan
 import Abyss.Stats
 import Abyss.Render
 import Abyss.Check
+import Abyss.Open
 /-!
 # Line-protocol driver of the executable model (no Mathlib; built as `abyss-driver`)
 One request per input line, one answer line per request. See harness/src/proto.rs.
@@ -217,6 +218,17 @@ def handle (ms : Maps) (line : String) : IO (Maps × String) := do
       | "iter", [] => return (ms, iterLine s)
       | "stats", [] => return (ms, statsLine s)
       | "noop", _ => return (ms, "ok")
+      | "openas", [kt2, f, pos, b] =>
+        match parseKt kt2, pos.toNat?, b.toNat? with
+        | some kt2, some pos, some b =>
+          let img := render kt s
+          let img := match f with
+            | "htx" => img.mutate .htx pos b
+            | "key" => img.mutate .key pos b
+            | "val" => img.mutate .val pos b
+            | _ => img
+          return (ms, if openAccepts kt2 img then "accept" else "reject")
+        | _, _, _ => return (ms, "bad-op")
       | "check", [] =>
         match s.checkInv kt with
         | none => return (ms, "inv-ok")
